@@ -436,10 +436,12 @@ CRATEOPT_Z = dict(
 pub mod zb { use super::*; use ::derive_where::derive_where;
     #[derive_where(Zeroize(crate = zalias), ZeroizeOnDrop(crate = zalias))] pub enum S<T: ::zeroize::Zeroize, U> { A(T), B { x: PhantomData<U> } } }
 pub mod zc { use super::*; use ::derive_where::derive_where;
-    #[derive_where(Zeroize(crate = "crate::reexp::zeroize"); T)] pub struct S<T, U> { #[derive_where(Zeroize(fqs))] pub a: T, pub b: PhantomData<U> } }
+    /// an inherent `zeroize` that wipes nothing: only the fully qualified call requested by `fqs` reaches the trait
+    pub struct Tricky(pub u8); impl Tricky { pub fn zeroize(&mut self) {} } impl ::zeroize::Zeroize for Tricky { fn zeroize(&mut self) { self.0 = 0; } }
+    #[derive_where(Zeroize(crate = "crate::reexp::zeroize"); T)] pub struct S<T, U> { #[derive_where(Zeroize(fqs))] pub a: Tricky, pub t: T, pub b: PhantomData<U> } }
 ''',
     ZMAIN=r'''{ use ::zeroize::Zeroize; let mut s = za::S::<u8, NoTraits>(9, PhantomData); s.zeroize(); assert_eq!(s.0, 0);
-      let mut t = zc::S::<u8, NoTraits> { a: 9, b: PhantomData }; t.zeroize(); assert_eq!(t.a, 0);
+      let mut t = zc::S::<u8, NoTraits> { a: zc::Tricky(9), t: 5, b: PhantomData }; t.zeroize(); assert_eq!((t.a.0, t.t), (0, 0), "the fqs field of an item with a crate option was not wiped through the trait");
       let mut u = zb::S::<u8, NoTraits>::A(9); u.zeroize(); if let zb::S::A(v) = &u { assert_eq!(*v, 0); } }''')
 
 
